@@ -14,6 +14,7 @@ import Ufw.Tie.Varint
 #print axioms Ufw.Props.C08.ackResponse_wf
 #print axioms Ufw.Props.C08.metaFrame_wf
 #print axioms Ufw.Props.C08.emit_recv
+#print axioms Ufw.Props.C08.session_sequence
 #print axioms Ufw.Tie.Regp.const_header_sizes
 #print axioms Ufw.Tie.Regp.const_options
 #print axioms Ufw.Tie.Regp.const_frame_types
